@@ -1,7 +1,7 @@
 #!/bin/bash
 # usage: tools/confirm_seed_features.sh <ID> <features>  — for demonstrations that need cargo features:
 # runs only the demo test target(s) with the given features, with and without the change, in /tmp/seed/<ID>.
-id="$1"; feats="$2"; wt=/tmp/seed/$id; out=/tmp/seed/$id.out
+id="$1"; feats="$2"; root=${SEED_ROOT:-/tmp/seed}; wt=$root/$id; out=$root/$id.out
 cd "$wt" || exit 2
 git checkout -q -- . ; git clean -fdq -- tests examples src 2>/dev/null
 git apply "$out/patch.diff" || { echo "CONFIRMF $id: patch does not apply"; exit 1; }
@@ -12,6 +12,6 @@ with=$(timeout 1500 cargo test --offline --features "$feats" $names 2>&1 | grep 
 git apply -R "$out/patch.diff"
 without=$(timeout 1500 cargo test --offline --features "$feats" $names 2>&1 | grep -E "^test result" | awk '{p+=$4; f+=$6} END{print p" passed "f" failed"}')
 echo "CONFIRMF $id: demo ($feats) with change: $with | without change: $without"
-mkdir -p /verif/seeded/$(echo $id | tr A-Z a-z)
-printf '{"demo_command": "cargo test --offline --features %s%s", "demo_with_change": "%s", "demo_without_change": "%s"}\n' "$feats" "$names" "$with" "$without" > /verif/seeded/$(echo $id | tr A-Z a-z)/confirm_extra.json
+sd=/verif/seeded/$(echo $id | tr A-Z a-z)${SEED_SUFFIX}; mkdir -p $sd
+printf '{"demo_command": "cargo test --offline --features %s%s", "demo_with_change": "%s", "demo_without_change": "%s"}\n' "$feats" "$names" "$with" "$without" > $sd/confirm_extra.json
 git checkout -q -- . ; git clean -fdq -- tests examples src 2>/dev/null
